@@ -229,11 +229,24 @@ def grid_d():
     return out
 
 
+def grid_e():
+    """More data points (4-6) with subtree updates always on, several sweeps: label clashes when a resampled subtree is
+    grafted back need at least four clones."""
+    out = []
+    for n in (4, 5, 6):
+        for k, prop in enumerate(("bootstrap", "semi-adapted", "fully-adapted")):
+            if n == 6 and prop == "fully-adapted":
+                continue
+            out.append(dict(n=n, data=("seeded" if n > 4 else "peaked"), proposal=prop, N=(2 if n > 4 else 3), iters=(6 if n == 4 else 4), burnin=1, conc_update=bool(k % 2),
+                            outlier_prob=(0.1 if (n + k) % 2 else 0.0), subtree_prob=1.0, threshold=0.5))
+    return out
+
+
 def main(tier, seed):
     chk = Check("C19", tier, seed)
     chk.rule = ("run_phyclone_chain under EnumRNG + virtual clock. Grid A (972 configs, full cross): data points {1,2,3} x proposal x particles {1,2,3} x resample threshold "
                 "{0,.5,1} x outlier probability {0,1e-4,.5,1} x subtree-update probability {0,.5,1}. Grid C: the real main loop (_run_main_sampler, 2 iterations) started from EVERY tree over 3 data points x proposal x subtree-update probability {0,1}, outlier modelling on. Grid B (384 configs): thin x burn-in x time limit {0,inf} x concentration "
-                "update x samples {1,2} x data-point/prune-regraft sample counts {0,1} x proposal. Grid D (18 configs): grid sizes {999,1000,1001} (algorithm switch of the recursion) x proposal x {peaked 2-sample, needle} data on 3 data points. Every config: deviation bound 0 under 4 default policies; bound 1 "
+                "update x samples {1,2} x data-point/prune-regraft sample counts {0,1} x proposal. Grid E (8 configs): 4-6 data points, subtree updates always on, 4-6 sweeps, 4 policies + bound 1 capped. Grid D (18 configs): grid sizes {999,1000,1001} (algorithm switch of the recursion) x proposal x {peaked 2-sample, needle} data on 3 data points. Every config: deviation bound 0 under 4 default policies; bound 1 "
                 "(quick: Grid A with <=2 data points + every 3rd other config, capped) / bound 2 for single-data-point configs (thorough). Command line: `phyclone run` invoked through click in-process "
                 "(pool replaced by an in-process executor), one option at a time (pairs in thorough) over every boundary value its click declaration accepts, incl. clamped out-of-range values, on 1 and 3 (clustered, 2 samples) mutations; non-trivial = config whose exploration ran >= 2 executions")
     chk.assumptions = ["deviation-bounded: not every random outcome of a whole run is enumerated; the completed bound is reported", "iterations 2-3, burn-in 1-2: long-run behaviour is not covered",
@@ -269,6 +282,11 @@ def main(tier, seed):
         items.append((cfg, "first", 0, None))
         items.append((cfg, "unlikely", 0, None))
         items.append((cfg, "likely", 1, cap))
+    E = grid_e()
+    for cfg in E:
+        for pol in POLICIES:
+            items.append((cfg, pol, 0, None))
+        items.append((cfg, "likely", 1, 60 if tier == "quick" else 400))
     D = grid_d()
     for cfg in D:
         for pol in (POLICIES if tier == "thorough" else ("first", "unlikely")):
@@ -304,7 +322,7 @@ def main(tier, seed):
             chk.violation({"sub": "cli", "what": pr.split(":")[0][:60]}, {"data": list(r["item"][0]), "options": [list(o) for o in r["item"][1]], "problem": pr},
                           {"cli": [list(r["item"][0]), [list(o) for o in r["item"][1]]]})
     chk.note("command_line_runs", ncli)
-    chk.note("configs", len(A) + len(B) + len(C) + len(D))
+    chk.note("configs", len(A) + len(B) + len(C) + len(D) + len(E))
     chk.note("explorations", len(items))
     chk.note("explorations_that_hit_the_execution_cap", capped)
     chk.caps.append("deviation bound 0 (4 policies) for all %d configs; bound 1 on the subset described in rule with an execution cap of %d per exploration (%d explorations hit it)" % (len(A) + len(B), cap, capped))
